@@ -328,7 +328,7 @@ Section RP.
   Definition reclaim_evs (rm : list gentry) : list event := map EvReclaim (rev (map ptr rm)).
 
   Lemma sweep_loop_ok : forall f (l : list gslot) i nit pl ev,
-    Core l -> occupied l < length l ->
+    Core l -> (length l = 0 \/ occupied l < length l) ->
     (forall s h e, s < i -> at_ l s = Some (h, e) -> keeper e = true) ->
     (length l - i) + occupied l < f ->
     exists l' rm,
@@ -338,7 +338,7 @@ Section RP.
       (forall x, In x rm <-> Holds l x /\ keeper x = false) /\
       occupied l' + length rm = occupied l.
   Proof.
-    induction f as [|f IH]; intros l i nit pl ev Hc Hocc Hinv Hf; [lia|].
+    induction f as [|f IH]; intros l i nit pl ev Hc Hocc0 Hinv Hf; [lia|].
     cbn [sweep_loop]. destruct (Nat.leb_spec (length l) i) as [Hge|Hlt].
     - exists l, []. cbn [length pend_of reclaim_evs map rev app]. rewrite Nat.sub_0_r, app_nil_r.
       split; [reflexivity|]. split; [assumption|]. split; [reflexivity|]. split; [|split; [|lia]].
@@ -363,12 +363,14 @@ Section RP.
         destruct (root e) eqn:Hr; cbn [negb].
         { apply Hadv. intros h0 e0 Heq. injection Heq as <- <-. unfold keeper. rewrite Hr. apply orb_true_r. }
         assert (Hke : keeper e = false) by (unfold keeper; rewrite Hm, Hr; reflexivity).
+        assert (Hocc : occupied l < length l).
+        { destruct Hocc0 as [Hz|]; [pose proof (at_some_lt _ _ _ _ Hat); lia|assumption]. }
         destruct (delete_at_spec N gentry ptr swap swap_le _ l i h e Hc Hat Hocc)
           as [l1 [Hd [Hc1 [Hlen1 [Hh1 Ho1]]]]].
         unfold rh_delete. rewrite Hd.
         assert (Hc1' : Core l1) by (unfold Core; rewrite Hlen1; exact Hc1).
         destruct (IH l1 i (pred nit) (pl ++ [Some (ptr e)]) (EvReclaim (ptr e) :: ev)) as [l' [rm [Hs [Hc' [Hlen' [Hh' [Hrm' Ho']]]]]]]; auto.
-        * lia.
+        * right. lia.
         * intros s h0 e0 Hs Hat0.
           destruct (delete_at_from l i h e l1 Hat Hocc Hd s (h0, e0) Hat0) as [[Hne Ho]|[Hne Ho]].
           -- apply (Hinv s h0 e0); assumption.
@@ -635,20 +637,23 @@ Section RP.
   Local Notation gc_rem' := (gc_rem hashf swap primes num den owns rem_fin).
 
   Definition rem_good (f : nat) : Prop := forall g p, Inv g -> measure g < f ->
-    exists g', gc_rem' f g p = Some g' /\ Inv g' /\ measure g' <= measure g.
+    exists g', gc_rem' f g p = Some g' /\ Inv g' /\ measure g' <= measure g /\
+               length (pending g') = length (pending g).
 
   Lemma fold_rem_ok f : rem_good f -> forall ts g, Inv g -> measure g < f ->
     exists g', fold_left (fun og t => match og with Some g1 => gc_rem' f g1 t | None => None end) ts (Some g) = Some g'
-               /\ Inv g' /\ measure g' <= measure g.
+               /\ Inv g' /\ measure g' <= measure g /\ length (pending g') = length (pending g).
   Proof.
     intros Hg. induction ts as [|t ts IH]; intros g Hi Hm; simpl.
-    - exists g. split; [reflexivity|]. split; [assumption|lia].
-    - destruct (Hg g t Hi Hm) as [g1 [H1 [Hi1 Hm1]]]. rewrite H1.
-      destruct (IH g1 Hi1 ltac:(lia)) as [g2 [H2 [Hi2 Hm2]]]. exists g2. split; [exact H2|]. split; [assumption|lia].
+    - exists g. split; [reflexivity|]. split; [assumption|split; [lia|reflexivity]].
+    - destruct (Hg g t Hi Hm) as [g1 [H1 [Hi1 [Hm1 Hp1]]]]. rewrite H1.
+      destruct (IH g1 Hi1 ltac:(lia)) as [g2 [H2 [Hi2 [Hm2 Hp2]]]]. exists g2. split; [exact H2|].
+      split; [assumption|split; [lia|congruence]].
   Qed.
 
   Lemma finalise_ok f : rem_good f -> forall g q, Inv g -> measure g < f ->
-    exists g', finalise_with owns (gc_rem' f) g q = Some g' /\ Inv g' /\ measure g' <= measure g.
+    exists g', finalise_with owns (gc_rem' f) g q = Some g' /\ Inv g' /\ measure g' <= measure g /\
+               length (pending g') = length (pending g).
   Proof.
     intros Hg g q Hi Hm. unfold finalise_with.
     apply (fold_rem_ok f Hg (owns q) (log g (EvFin q))); [apply Inv_log_fin; assumption|exact Hm].
@@ -683,17 +688,19 @@ Section RP.
   Proof. reflexivity. Qed.
 
   Lemma rem_ptr_ok f : rem_good f -> forall g p, Inv g -> measure g < S f ->
-    exists g2, rem_ptr f (log g (EvRem p)) p = Some g2 /\ Inv g2 /\ measure g2 <= measure g.
+    exists g2, rem_ptr f (log g (EvRem p)) p = Some g2 /\ Inv g2 /\ measure g2 <= measure g /\
+               length (pending g2) = length (pending g).
   Proof.
     intros Hg g p Hi Hm. pose proof Hi as [H Hcl]. unfold rem_ptr.
     change (nslots (log g (EvRem p))) with (nslots g).
     change (pending (log g (EvRem p))) with (pending g).
     destruct (Nat.eqb_spec (nslots g) 0) as [Hz|Hnz].
-    - exists (log g (EvRem p)). split; [reflexivity|]. split; [|unfold measure; simpl; lia].
+    - exists (log g (EvRem p)). split; [reflexivity|]. split; [|split; [unfold measure; simpl; lia|reflexivity]].
       apply (Inv_rem_absent g _ p Hi); try reflexivity; [|auto].
       intros e [i [h Hat]]. pose proof (at_some_lt _ _ _ _ Hat). unfold nslots in Hz. lia.
     - set (g0 := set_pending (log g (EvRem p)) (null_out p (pending g))).
       assert (Hm0 : measure g0 <= measure g) by (unfold measure; simpl; pose proof (null_out_cnt p (pending g)); lia).
+      assert (Hlen0 : length (pending g0) = length (pending g)) by (simpl; unfold null_out; apply map_length).
       assert (Habs0 : HAbsent (slots g) p -> Inv g0).
       { intros Ha. apply (Inv_rem_absent g g0 p Hi Ha); try reflexivity. intros q. simpl. apply null_out_in. }
       cbv zeta. destruct (is_pending p (pending g) && rem_fin) eqn:Hhit.
@@ -701,8 +708,8 @@ Section RP.
         assert (Ha : HAbsent (slots g) p) by (apply (inv_pend g H); apply is_pending_in; assumption).
         assert (Hm1 : measure g0 < f).
         { unfold measure; simpl. pose proof (null_out_cnt_hit p (pending g) Hhit). unfold measure in Hm. lia. }
-        destruct (finalise_ok f Hg g0 p (Habs0 Ha) Hm1) as [g2 [H2 [Hi2 Hm2]]].
-        exists g2. split; [exact H2|]. split; [assumption|lia].
+        destruct (finalise_ok f Hg g0 p (Habs0 Ha) Hm1) as [g2 [H2 [Hi2 [Hm2 Hp2]]]].
+        exists g2. split; [exact H2|]. split; [assumption|split; [lia|congruence]].
       + change (slots g0) with (slots g). change (nslots g0) with (nslots g). change (nitems g0) with (nitems g).
         destruct (find_spec N gentry N.eqb ptr N.eqb_eq (fun q => home q (length (slots g))) (slots g) p (inv_core g H))
           as [r [Hr Hres]].
@@ -723,20 +730,286 @@ Section RP.
           assert (Hm1 : measure g1 < f).
           { unfold measure; simpl. pose proof (null_out_cnt p (pending g)). pose proof (inv_count g H).
             unfold measure in Hm. lia. }
-          destruct (finalise_ok f Hg g1 p Hi1 Hm1) as [g2 [H2 [Hi2 Hm2]]].
-          exists g2. split; [exact H2|]. split; [assumption|].
+          destruct (finalise_ok f Hg g1 p Hi1 Hm1) as [g2 [H2 [Hi2 [Hm2 Hp2]]]].
+          exists g2. split; [exact H2|]. split; [assumption|]. split; [|rewrite Hp2; exact Hlen0].
           assert (measure g1 <= measure g); [|lia].
           unfold measure; simpl. pose proof (null_out_cnt p (pending g)). lia.
-        * exists g0. split; [reflexivity|]. split; [|assumption]. apply Habs0. apply HAbsent_Absent. assumption.
+        * exists g0. split; [reflexivity|]. split; [|split; assumption]. apply Habs0. apply HAbsent_Absent. assumption.
   Qed.
 
   Theorem gc_rem_ok : forall f, rem_good f.
   Proof.
     induction f as [|f IH]; intros g p Hi Hm; [lia|]. rewrite gc_rem_S.
     destruct (running g); cbn [negb].
-    - destruct (rem_ptr_ok f IH g p Hi Hm) as [g1 [H1 [Hi1 Hm1]]]. rewrite H1.
+    - destruct (rem_ptr_ok f IH g p Hi Hm) as [g1 [H1 [Hi1 [Hm1 Hp1]]]]. rewrite H1.
       destruct (resize_less_ok g1 Hi1) as [l' [Hr Hi2]]. rewrite Hr.
       eexists. split; [reflexivity|]. split; [apply Inv_new_mitems; assumption|].
-      unfold measure in *. simpl. lia.
-    - exists g. split; [reflexivity|]. split; [assumption|lia].
+      split; [unfold measure in *; simpl; lia|exact Hp1].
+    - exists g. split; [reflexivity|]. split; [assumption|split; [lia|reflexivity]].
   Qed.
+
+  (* ---------------------------------------------------------------- sweep *)
+  Local Notation fin_loop' := (fin_loop hashf swap primes num den owns rem_fin null_first).
+
+  Lemma upd_opt_length k pl : length (upd_opt k pl) = length pl.
+  Proof. revert k. induction pl as [|x pl IH]; intros [|k]; simpl; auto. Qed.
+
+  Lemma fin_loop_ok d : rem_good d -> forall c k g, Inv g -> measure g < d ->
+    exists g', fin_loop' c k d g = Some g' /\ Inv g' /\ measure g' <= measure g /\
+               length (pending g') = length (pending g).
+  Proof.
+    intros Hg. induction c as [|c IH]; intros k g Hi Hm; cbn [fin_loop].
+    - exists g. split; [reflexivity|]. split; [assumption|split; [lia|reflexivity]].
+    - destruct (nth k (pending g) None) as [q|].
+      + set (g1 := if null_first then set_pending g (upd_opt k (pending g)) else g).
+        assert (H1 : Inv g1 /\ measure g1 <= measure g /\ length (pending g1) = length (pending g)).
+        { unfold g1. destruct null_first; [|split; [assumption|split; [lia|reflexivity]]].
+          split; [|split].
+          - apply (Inv_fields g _ Hi); try reflexivity. intros q'. simpl. apply upd_opt_in.
+          - unfold measure; simpl. pose proof (upd_opt_cnt k (pending g)). lia.
+          - simpl. apply upd_opt_length. }
+        destruct H1 as [Hi1 [Hm1 Hp1]].
+        unfold finalise.
+        destruct (finalise_ok d Hg g1 q Hi1 ltac:(lia)) as [g2 [H2 [Hi2 [Hm2 Hp2]]]]. rewrite H2.
+        destruct (IH (S k) g2 Hi2 ltac:(lia)) as [g3 [H3 [Hi3 [Hm3 Hp3]]]].
+        exists g3. split; [exact H3|]. split; [assumption|split; [lia|congruence]].
+      + apply IH; assumption.
+  Qed.
+
+  Lemma led_reclaim_gen ps t q s : led (map EvReclaim ps ++ t) q s <-> led t q s /\ ~ In q ps.
+  Proof.
+    induction ps as [|p ps IH]; simpl; [tauto|]. rewrite IH. intuition congruence.
+  Qed.
+
+  Lemma led_reclaim rm t q s : led (reclaim_evs rm ++ t) q s <-> led t q s /\ ~ In q (map ptr rm).
+  Proof.
+    unfold reclaim_evs. rewrite led_reclaim_gen. rewrite <- in_rev. tauto.
+  Qed.
+
+  Lemma cnt_pend_of rm : cnt (pend_of rm) = length rm.
+  Proof. unfold cnt, pend_of. induction rm; simpl; auto. Qed.
+
+  (* the state after the compaction and mark-clearing loops *)
+  Lemma Inv_compacted g l' rm g1 : InvM g -> Quiet g ->
+    Core l' -> length l' = length (slots g) ->
+    (forall x, Holds l' x <-> Holds (slots g) x /\ keeper x = true) ->
+    (forall x, In x rm <-> Holds (slots g) x /\ keeper x = false) ->
+    occupied l' + length rm = occupied (slots g) ->
+    slots g1 = clear_marks l' -> nitems g1 = nitems g - length rm ->
+    minptr g1 = minptr g -> maxptr g1 = maxptr g ->
+    pending g1 = pend_of rm -> evs g1 = reclaim_evs rm ++ evs g -> Inv g1.
+  Proof.
+    intros H Hq Hc Hlen Hh Hrm Ho Hs Hn Hlo Hhi Hp He.
+    pose proof (PW_clear_marks l') as Hpw. pose proof (inv_count g H) as Hcnt.
+    unfold Inv. rewrite Hs. split; [constructor|apply Clear_clear_marks].
+    - rewrite Hs. eapply Core_PW; eauto.
+    - rewrite Hs, Hn, (PW_occupied _ _ Hpw). lia.
+    - unfold nslots. rewrite Hs, Hn, (PW_length _ _ Hpw), Hlen. pose proof (inv_room g H) as Hr. unfold nslots in Hr. lia.
+    - rewrite Hs, Hlo, Hhi. intros e He'. destruct (PW_holds _ _ _ Hpw He') as [x [Hx [Hpx _]]].
+      rewrite <- Hpx. apply (inv_bounds g H). apply Hh. assumption.
+    - rewrite Hs, Hp. intros q Hin e He'. unfold pend_of in Hin. apply in_map_iff in Hin.
+      destruct Hin as [y [Hy Hiny]]. injection Hy as <-. apply Hrm in Hiny. destruct Hiny as [Hyh Hyk].
+      destruct (PW_holds _ _ _ Hpw He') as [x [Hx [Hpx _]]]. apply Hh in Hx. destruct Hx as [Hxh Hxk].
+      intros Heq. assert (x = y); [|subst x; congruence].
+      apply (Core_UQ_same (slots g) x y (inv_core g H) Hxh Hyh). congruence.
+    - unfold Reg. rewrite Hs, He. intros q s. rewrite led_reclaim, <- (inv_led g H q s).
+      rewrite (PW_regs _ _ q s Hpw). unfold Reg, Regs. split.
+      + intros [e [He' [Hpe Hre]]]. apply Hh in He'. destruct He' as [Heh Hek]. split; [exists e; auto|].
+        intros Hin. apply in_map_iff in Hin. destruct Hin as [y [Hy Hiny]]. apply Hrm in Hiny. destruct Hiny as [Hyh Hyk].
+        assert (e = y); [|subst e; congruence].
+        apply (Core_UQ_same (slots g) e y (inv_core g H) Heh Hyh). congruence.
+      + intros [[e [He' [Hpe Hre]]] Hnin]. exists e. split; [|auto]. apply Hh. split; [assumption|].
+        destruct (keeper e) eqn:Hk; [reflexivity|]. exfalso. apply Hnin. rewrite <- Hpe. apply in_map.
+        apply Hrm. auto.
+  Qed.
+
+  Local Notation gc_sweep' := (gc_sweep hashf swap primes num den owns rem_fin null_first).
+
+  (* GC_Sweep from any marking: total, ends with the invariant and an empty pending list *)
+  Theorem gc_sweep_ok g : InvM g -> Quiet g -> exists g', gc_sweep' g = Some g' /\ Inv g' /\ Quiet g'.
+  Proof.
+    intros H Hq. unfold gc_sweep.
+    pose proof (inv_count g H) as Hcnt. pose proof (inv_room g H) as Hroom. unfold nslots in Hroom.
+    destruct (sweep_loop_ok (nslots g + occupied (slots g) + 1) (slots g) 0 (nitems g) [] (evs g) (inv_core g H))
+      as [l' [rm [Hs [Hc' [Hlen' [Hh' [Hrm' Ho']]]]]]].
+    - lia.
+    - intros s h e Hs. lia.
+    - unfold nslots. lia.
+    - unfold rh_delete in *. rewrite Hs. cbn [app].
+      set (g1 := mkGC (clear_marks l') (nitems g - length rm) (mitems g) (minptr g) (maxptr g) (running g)
+                      (pend_of rm) (reclaim_evs rm ++ evs g)).
+      assert (Hi1 : Inv g1) by (apply (Inv_compacted g l' rm g1 H Hq); auto).
+      destruct (resize_less_ok g1 Hi1) as [l2 [Hr Hi2]]. rewrite Hr.
+      assert (Hm : measure (new_mitems (set_slots g1 l2)) < depth g).
+      { unfold measure, depth. simpl. rewrite cnt_pend_of. lia. }
+      destruct (fin_loop_ok (depth g) (gc_rem_ok (depth g)) (length (pend_of rm)) 0 (new_mitems (set_slots g1 l2))
+                  (Inv_new_mitems _ Hi2) Hm) as [g3 [H3 [Hi3 _]]].
+      rewrite H3. exists (set_pending g3 []). split; [reflexivity|]. split; [|reflexivity].
+      apply (Inv_fields g3 _ Hi3); try reflexivity. intros q [].
+  Qed.
+
+  Local Notation collect' := (collect hashf swap primes num den owns rem_fin null_first).
+  Local Notation gc_set' := (gc_set hashf swap primes num den owns rem_fin null_first).
+  Local Notation gc_step' := (gc_step hashf swap primes num den owns rem_fin null_first).
+  Local Notation gc_run' := (gc_run hashf swap primes num den owns rem_fin null_first).
+
+  (* GC_Mark; GC_Sweep *)
+  Lemma collect_ok g ws : Inv g -> Quiet g -> exists g', collect' g ws = (g', OOk) /\ Inv g' /\ Quiet g'.
+  Proof.
+    intros [H Hcl] Hq. unfold collect.
+    destruct (gc_mark_ok g ws (inv_core g H)) as [g1 [Hm [Hpw Hsr]]].
+    - intros Hne Hz. pose proof (inv_count g H). unfold nslots in Hz.
+      destruct (slots g); [|discriminate]. unfold RobinHood.occupied in *; simpl in *. lia.
+    - rewrite Hm. destruct (gc_sweep_ok g1) as [g2 [Hs [Hi2 Hq2]]].
+      + eapply InvM_PW; eauto.
+      + unfold Quiet. destruct Hsr as [_ [_ [_ [_ [_ [Hp _]]]]]]. rewrite Hp. exact Hq.
+      + rewrite Hs. exists g2. auto.
+  Qed.
+
+  (* a fresh address has been inserted *)
+  Lemma Inv_alloc g g' p r l2 l3 : Inv g -> Quiet g -> Core l3 ->
+    (forall x, Holds l2 x <-> Holds (slots g) x) -> occupied l2 = occupied (slots g) ->
+    (forall x, Holds l3 x <-> Holds l2 x \/ x = mkE p r false) -> occupied l3 = S (occupied l2) ->
+    S (nitems g) < length l3 ->
+    slots g' = l3 -> nitems g' = S (nitems g) ->
+    minptr g' = N.min p (minptr g) -> maxptr g' = N.max p (maxptr g) ->
+    pending g' = [] -> evs g' = EvAlloc p r :: evs g -> Inv g'.
+  Proof.
+    intros [H Hcl] Hq Hc H2 Ho2 H3 Ho3 Hroom Hs Hn Hlo Hhi Hp He.
+    pose proof (inv_count g H) as Hcnt. unfold Inv, Clear. rewrite Hs. split; [constructor|].
+    - rewrite Hs. assumption.
+    - rewrite Hs, Hn. lia.
+    - unfold nslots. rewrite Hs, Hn. lia.
+    - rewrite Hs, Hlo, Hhi. intros e He'. apply H3 in He'. destruct He' as [He'| ->]; [|simpl; lia].
+      apply H2 in He'. pose proof (inv_bounds g H e He'). lia.
+    - rewrite Hp. intros q [].
+    - unfold Reg. rewrite Hs, He. intros q s. cbn [led]. rewrite <- (inv_led g H q s). unfold Reg, Regs. split.
+      + intros [e [He' [Hpe Hre]]]. apply H3 in He'. destruct He' as [He'| ->].
+        * right. exists e. split; [apply H2; assumption|auto].
+        * left. simpl in *. auto.
+      + intros [[-> ->]|[e [He' Hpr]]].
+        * exists (mkE p r false). split; [apply H3; right; reflexivity|auto].
+        * exists e. split; [apply H3; left; apply H2; assumption|assumption].
+    - intros e He'. apply H3 in He'. destruct He' as [He'| ->]; [|reflexivity]. apply Hcl. apply H2. assumption.
+  Qed.
+
+  (* GC_Set of an address that is not registered *)
+  Theorem gc_set_ok g p r ws : Inv g -> Quiet g -> (running g = true -> HAbsent (slots g) p) ->
+    exists g', gc_set' g p r ws = (g', OOk) /\ Inv g' /\ Quiet g'.
+  Proof.
+    intros Hi Hq Hfresh. pose proof Hi as [H Hcl]. unfold gc_set.
+    destruct (running g) eqn:Hrun; cbn [negb]; [|exists g; auto].
+    specialize (Hfresh eq_refl).
+    set (g1 := set_bounds (set_nitems g (S (nitems g))) (N.min p (minptr g)) (N.max p (maxptr g))).
+    pose proof (inv_count g H) as Hcnt. pose proof (ideal_gt (S (nitems g))) as Hid.
+    assert (Hrm : exists l2, resize_more hashf swap primes num den g1 = Some (set_slots g1 l2) /\ Core l2 /\
+              (forall x, Holds l2 x <-> Holds (slots g) x) /\ occupied l2 = occupied (slots g) /\
+              S (nitems g) < length l2).
+    { unfold resize_more. change (nitems g1) with (S (nitems g)). change (nslots g1) with (nslots g).
+      destruct (Nat.ltb_spec (nslots g) (ideal (S (nitems g)))) as [Hlt|Hge].
+      - destruct (g_rehash_ok g1 (ideal (S (nitems g)))) as [l2 [Hr [Hc2 [Hlen2 [Hh2 Ho2]]]]].
+        + apply (inv_core g H).
+        + assumption.
+        + simpl. unfold RegistryModel.ideal. lia.
+        + unfold RegistryModel.ideal. lia.
+        + exists l2. split; [exact Hr|]. split; [assumption|]. split; [exact Hh2|]. split; [exact Ho2|].
+          rewrite Hlen2. exact Hid.
+      - exists (slots g). split; [reflexivity|]. split; [apply (inv_core g H)|]. split; [tauto|]. split; [reflexivity|].
+        unfold nslots, RegistryModel.ideal in Hge. lia. }
+    destruct Hrm as [l2 [Hr [Hc2 [Hh2 [Ho2 Hlen2]]]]]. rewrite Hr.
+    change (nslots (set_slots g1 l2)) with (length l2). change (slots (set_slots g1 l2)) with l2.
+    destruct (Nat.eqb_spec (length l2) 0) as [|_]; [lia|].
+    destruct (insert_absent_spec N gentry N.eqb ptr swap (fun old _ => old) N.eqb_eq swap_le swap_ge
+                (fun q => home q (length l2)) l2 (mkE p r false) Hc2) as [l3 [Hins [Hc3 [Hlen3 [Hh3 Ho3]]]]].
+    - apply home_lt. lia.
+    - lia.
+    - apply HAbsent_Absent. intros e He. apply Hfresh. apply Hh2. assumption.
+    - unfold rh_insert. cbn [ptr] in Hins. rewrite Hins.
+      set (g3 := log (set_slots (set_slots g1 l2) l3) (EvAlloc p r)).
+      assert (Hi3 : Inv g3).
+      { apply (Inv_alloc g g3 p r l2 l3 Hi Hq); auto; try reflexivity.
+        - unfold Core. rewrite Hlen3. exact Hc3.
+        - lia. }
+      assert (Hq3 : Quiet g3) by exact Hq.
+      destruct (mitems g3 <? nitems g3).
+      + apply collect_ok; assumption.
+      + exists g3. auto.
+  Qed.
+
+  (* GC_Mem_Ptr *)
+  Theorem gc_mem_ok g p : InvM g -> exists b, gc_mem hashf g p = Some b /\ (b = true <-> exists s, Reg g p s).
+  Proof.
+    intros H. unfold gc_mem. destruct (Nat.eqb_spec (nslots g) 0) as [Hz|Hnz].
+    - exists false. split; [reflexivity|]. split; [discriminate|].
+      intros [s [e [[i [h Hat]] _]]]. pose proof (at_some_lt _ _ _ _ Hat). unfold nslots in Hz. lia.
+    - destruct (find_spec N gentry N.eqb ptr N.eqb_eq (fun q => home q (length (slots g))) (slots g) p (inv_core g H))
+        as [r [Hr Hres]].
+      { apply home_lt. unfold nslots in Hnz. lia. }
+      unfold rh_find, nslots. rewrite Hr. destruct r as [i|].
+      + exists true. split; [reflexivity|]. split; [|reflexivity]. intros _.
+        destruct Hres as [e [Hat Hpe]]. exists (root e), e. split; [exists i, (home p (length (slots g))); exact Hat|auto].
+      + exists false. split; [reflexivity|]. split; [discriminate|].
+        intros [s [e [[i [h Hat]] [Hpe _]]]]. exfalso. eapply Hres; eauto.
+  Qed.
+
+  (* ---------------------------------------------------------------- 6. steps and histories *)
+  (* the allocator's contract: it never returns an address that is still registered *)
+  Definition admissible (g : gc) (o : op) : Prop :=
+    match o with
+    | OAlloc p _ _ => running g = true -> HAbsent (slots g) p
+    | _ => True
+    end.
+
+  Theorem gc_step_ok g o : Inv g -> Quiet g -> admissible g o ->
+    exists g' out, gc_step' g o = (g', out) /\ out <> OFuel /\ out <> OCrash /\ Inv g' /\ Quiet g' /\
+      (forall p, o = OMem p -> out = OBool true <-> exists s, Reg g p s).
+  Proof.
+    intros Hi Hq Ha. pose proof Hi as [H Hcl].
+    assert (Hm : measure g < depth g).
+    { unfold measure, depth, cnt. rewrite Hq. simpl. lia. }
+    destruct o as [p r ws|p|p|ws| | | |p]; cbn [gc_step].
+    - destruct (gc_set_ok g p r ws Hi Hq Ha) as [g' [Hs [Hi' Hq']]]. rewrite Hs.
+      exists g', OOk. split; [reflexivity|]. split; [discriminate|]. split; [discriminate|].
+      split; [assumption|]. split; [assumption|]. intros p0 Heq; discriminate.
+    - destruct (gc_rem_ok (depth g) g p Hi Hm) as [g' [Hs [Hi' [_ Hp']]]]. rewrite Hs.
+      exists g', OOk. split; [reflexivity|]. split; [discriminate|]. split; [discriminate|].
+      split; [assumption|]. split; [|intros p0 Heq; discriminate].
+      unfold Quiet in *. rewrite Hq in Hp'. destruct (pending g'); [reflexivity|discriminate].
+    - unfold finalise.
+      destruct (finalise_ok (depth g) (gc_rem_ok (depth g)) g p Hi Hm) as [g' [Hs [Hi' [_ Hp']]]]. rewrite Hs.
+      exists g', OOk. split; [reflexivity|]. split; [discriminate|]. split; [discriminate|].
+      split; [assumption|]. split; [|intros p0 Heq; discriminate].
+      unfold Quiet in *. rewrite Hq in Hp'. destruct (pending g'); [reflexivity|discriminate].
+    - destruct (collect_ok g ws Hi Hq) as [g' [Hs [Hi' Hq']]]. rewrite Hs.
+      exists g', OOk. split; [reflexivity|]. split; [discriminate|]. split; [discriminate|].
+      split; [assumption|]. split; [assumption|]. intros p0 Heq; discriminate.
+    - destruct (gc_sweep_ok g H Hq) as [g' [Hs [Hi' Hq']]]. rewrite Hs.
+      exists g', OOk. split; [reflexivity|]. split; [discriminate|]. split; [discriminate|].
+      split; [assumption|]. split; [assumption|]. intros p0 Heq; discriminate.
+    - exists (set_running g false), OOk. split; [reflexivity|]. split; [discriminate|]. split; [discriminate|].
+      split; [apply (Inv_fields g _ Hi); auto|]. split; [exact Hq|]. intros p0 Heq; discriminate.
+    - exists (set_running g true), OOk. split; [reflexivity|]. split; [discriminate|]. split; [discriminate|].
+      split; [apply (Inv_fields g _ Hi); auto|]. split; [exact Hq|]. intros p0 Heq; discriminate.
+    - destruct (gc_mem_ok g p H) as [b [Hb Hbs]]. rewrite Hb.
+      exists g, (OBool b). split; [reflexivity|]. split; [discriminate|]. split; [discriminate|].
+      split; [assumption|]. split; [assumption|]. intros p0 Heq. injection Heq as <-. split.
+      + intros Ho. injection Ho as ->. apply Hbs. reflexivity.
+      + intros Hr. f_equal. apply Hbs. assumption.
+  Qed.
+
+  Fixpoint adm_run (ops : list op) (g : gc) : Prop :=
+    match ops with
+    | [] => True
+    | o :: r => admissible g o /\ adm_run r (fst (gc_step' g o))
+    end.
+
+  Theorem gc_run_ok : forall ops g, Inv g -> Quiet g -> adm_run ops g ->
+    Inv (gc_run' ops g) /\ Quiet (gc_run' ops g).
+  Proof.
+    induction ops as [|o ops IH]; intros g Hi Hq Ha; [split; assumption|].
+    destruct Ha as [Ha Har]. unfold gc_run. cbn [fold_left].
+    destruct (gc_step_ok g o Hi Hq Ha) as [g' [out [Hs [_ [_ [Hi' [Hq' _]]]]]]].
+    rewrite Hs in *. cbn [fst] in *. apply IH; assumption.
+  Qed.
+
+End RP.
